@@ -23,6 +23,11 @@ from .tables import (
 )
 
 
+# obligations of the search model that say *which* nodes count (semantics of C01), not that the traversal is independent of the
+# import edges it meets (monotonicity)
+_NOT_MONO = ("[strict descendants]", "[subject not excluded", "[exempt set]", "[nothing else exempt]", "[every pair gets its imports]")
+
+
 def _relabel(src: Result, dst: Result, rule_from: str, rule_to: str, only=None) -> int:
     n = 0
     for o in src.obligations:
@@ -30,7 +35,7 @@ def _relabel(src: Result, dst: Result, rule_from: str, rule_to: str, only=None) 
             dst.add(rule_to, o.construct, o.ok, o.detail, o.where, o.nontrivial, o.kind)
             n += 1
     for u in src.undecided:
-        if u["rule"] == rule_from:
+        if u["rule"] == rule_from and not (rule_to == "C12.MONO" and any(t in u["construct"] for t in _NOT_MONO)):
             dst.undecide(rule_to, u["construct"], u["detail"], u["where"])
     return n
 
@@ -428,7 +433,7 @@ def run(repo: Repo) -> Result:
     try:
         tmps = Result("C01")
         c01.run_search(repo, tmps)
-        _relabel(tmps, res, "C01.S", "C12.MONO", only=lambda o: "[strict descendants]" not in o.construct and "[subject not excluded" not in o.construct)
+        _relabel(tmps, res, "C01.S", "C12.MONO", only=lambda o: not any(t in o.construct for t in _NOT_MONO))
         tmp3 = Result("C03")
         c03.run_r1(repo, tmp3)
         _relabel(tmp3, res, "C03.R1", "C12.MONO")
